@@ -318,6 +318,19 @@ def jobs(tier, seed):
                 (catalog.relabelled({"name": "g_pc", "fluid": "gas", "nj": 4, "elems": [
                     catalog.E("ext_grid", j=0), catalog.E("pipe", f=0, to=1), catalog.E("press_control", f=1, to=2, cj=2, p=3.5),
                     catalog.E("pipe", f=2, to=3), catalog.E("sink", j=3)]}, [30, 7, 2, 11]), ["hydraulics"])]
+    # pressure controller next to parts that drop out of the hydraulic calculation (out-of-service junction, section behind
+    # a closed valve): the reduced lookups must still address the controlled junction
+    structs += [({"name": "w_pc_reduced", "fluid": "water", "nj": 6, "jis": [True, False, True, True, True, True], "elems": [
+        catalog.E("ext_grid", j=0), catalog.E("pipe", f=0, to=2), catalog.E("press_control", f=2, to=3, cj=3, p=3.5),
+        catalog.E("pipe", f=3, to=4), catalog.E("valve", j=4, el=5, et="ju", opened=False), catalog.E("sink", j=4), catalog.E("sink", j=5),
+        catalog.E("pipe", f=0, to=1, in_service=False)]}, ["hydraulics"]),
+                ({"name": "g_pc_reduced", "fluid": "gas", "nj": 5, "jis": [False, True, True, True, True], "jl": [4, 9, 2, 7, 1], "elems": [
+                    catalog.E("ext_grid", j=1), catalog.E("pipe", f=1, to=2), catalog.E("press_control", f=2, to=3, cj=3, p=3.0),
+                    catalog.E("pipe", f=3, to=4), catalog.E("sink", j=4), catalog.E("pipe", f=0, to=1, in_service=False)]}, ["hydraulics"])]
+    # a second pressure zone that has a pressure feeder but no temperature feeder (thermal results there are no solution)
+    structs += [({"name": "w_two_zones", "fluid": "water", "nj": 5, "elems": [
+        catalog.E("ext_grid", j=0, type="pt"), catalog.E("pipe", f=0, to=1, u=5.0), catalog.E("pipe", f=1, to=2, u=5.0), catalog.E("sink", j=2),
+        catalog.E("ext_grid", j=3, type="p"), catalog.E("pipe", f=3, to=4, u=5.0), catalog.E("sink", j=4)]}, ["sequential", "bidirectional"])]
     # every heat-consumer specification mode, exchangers, exchangers entered against the flow
     from checks.c11 import specs as c11_specs
     structs += [(s_, ["sequential", "bidirectional"]) for s_ in c11_specs()]
